@@ -191,17 +191,25 @@ var _ ast.Field
 //@ end
 
 //@ func (*Formatter).formatField
-//@ props C07
+//@ props C07 C14
+// C14: the plan cache key is the rendered text: every part of a node that planning reads must be rendered
+//@ ensures[renders-directives] lastcalled(formatDirectiveList) && sameslice(lastarg(formatDirectiveList, 1), field.Directives) @props C14
+//@ ensures[renders-selection] lastcalled(formatSelectionSet) && sameslice(lastarg(formatSelectionSet, 1), field.SelectionSet) @props C14
+//@ ensures[renders-arguments] len(field.Arguments) != 0 ==> lastcalled(formatArgumentList) && sameslice(lastarg(formatArgumentList, 1), field.Arguments) @props C14
 //@ requires wfF(f) && field != nil
 //@ end
 
 //@ func (*Formatter).formatFragmentSpread
-//@ props C07
+//@ props C07 C14
+//@ ensures[renders-directives] lastcalled(formatDirectiveList) && sameslice(lastarg(formatDirectiveList, 1), spread.Directives) @props C14
+//@ ensures[renders-selection] lastcalled(formatSelectionSet) && sameslice(lastarg(formatSelectionSet, 1), spread.Definition.SelectionSet) @props C14
 //@ requires wfF(f) && spread != nil
 //@ end
 
 //@ func (*Formatter).formatInlineFragment
-//@ props C07
+//@ props C07 C14
+//@ ensures[renders-directives] lastcalled(formatDirectiveList) && sameslice(lastarg(formatDirectiveList, 1), inline.Directives) @props C14
+//@ ensures[renders-selection] lastcalled(formatSelectionSet) && sameslice(lastarg(formatSelectionSet, 1), inline.SelectionSet) @props C14
 //@ requires wfF(f) && inline != nil
 //@ end
 
